@@ -276,6 +276,17 @@ def axis_bounds(ctx, F):
         R = Resolver(b)
         an = b.arg_names()   # by position (private helper: its parameter names are free to change): (first row, mat, bias, axis, lower, upper)
         problems = _row_table(b, R, P(an[0]), P(an[3]), P(an[4]), P(an[5]), P(an[1]), P(an[2])) if len(an) == 6 else ['unexpected parameter list']
+        ROLES = (0, 1, 2, 3, 4, 5)   # positions of (first row, mat, bias, axis, lower, upper) in the helper's parameter list
+        if problems and len(an) == 6:
+            # the parameters of a private helper may also be reordered: the roles are whatever assignment makes the row table hold
+            from itertools import permutations
+            for perm in permutations(range(6)):
+                if perm == (0, 1, 2, 3, 4, 5):
+                    continue
+                pr = _row_table(b, R, P(an[perm[0]]), P(an[perm[3]]), P(an[perm[4]]), P(an[perm[5]]), P(an[perm[1]]), P(an[perm[2]]))
+                if not pr:
+                    problems, ROLES = [], perm
+                    break
         helper_ok = not problems
         if problems:
             for p_ in problems:
@@ -299,6 +310,7 @@ def axis_bounds(ctx, F):
             continue
         if ok:
             a = calls_[0][1]
+            a = [a[ROLES[k]] for k in range(6)] if (b is not None and len(a) == 6) else a   # arguments by role
             ok = s(a[1]) == s(rets[0][2][0]) and s(a[2]) == s(rets[0][2][1]) and is_call(a[1], 'ArrayBase::zeros') and is_call(a[2], 'ArrayBase::zeros')
             if want == 'single':
                 ok = ok and a[0] == ('const', 0) and a[3] == ('param', 'axis') and a[4] == ('param', 'lower_bound') and a[5] == ('param', 'upper_bound')
